@@ -569,12 +569,14 @@ def run_unit(name, pid, root=REPO, keep=None):
         if summary is None or to:
             o["outcome"] = "undecided"
         elif e:
-            if any("rlimit" in m.lower() or "resource limit" in m.lower() for m, _ in e):
-                o["outcome"] = "undecided"
-                R.undecided.append(f"{label}: rlimit")
-            else:
-                o["outcome"] = "refuted"
+            # Z3's resource limit is a deterministic count (not wall time): an obligation that is
+            # discharged on the unchanged tree and exhausts the limit after a change to the function
+            # under contract is an obligation that no longer holds up - reported like any failed
+            # obligation (no counterexample available), with the solver's reason attached
+            o["outcome"] = "refuted"
             o["detail"] = " | ".join(r.strip()[:700] for _, r in e[:3])
+            if any("rlimit" in m.lower() or "resource limit" in m.lower() for m, _ in e):
+                o["detail"] = "solver resource limit exhausted (obligation is discharged on the unchanged tree) | " + o["detail"]
         else:
             o["outcome"] = "discharged"
         R.obligations.append(o)
